@@ -31,6 +31,7 @@ MIN_COUNTERS = {"schedules": 1500, "preempted_schedules": 500, "yield_points": 1
 MIN_NONTRIVIAL = {"quick": 500, "thorough": 20000}
 WALL_BUDGET = {"quick": 250, "thorough": 2700}
 TIMEOUT = 20.0
+KF_CYCLE = "broadcast-channel:remotes-listed-in-cyclic-order-never-connect"
 
 
 # ---- scenarios: per endpoint a script of operations -----------------------------------------------------------------
@@ -73,6 +74,21 @@ def scenarios():
     # the side that starts second connects with timeout 0 ("the peer must already be there"); if it was too early it connects normally
     S["late-starter-zero-timeout"] = {"alice": [("open", "s", "bob", 0, False), ("recv", "s")],
                                       "bob": [("pause", 4), ("open_t", "s", "alice", 0, 0.0), ("open", "s", "alice", 0, False), ("send", "s", "b1")]}
+    # two receiving threads of ONE endpoint poll the same socket (a host with a worker thread): every message once, and an empty
+    # poll reports emptiness whatever the other thread does
+    S["two-receivers-one-socket"] = {"alice": [("open", "s", "bob", 0, False), ("send", "s", "a1"), ("send", "s", "a2"), ("send", "s", "a3")],
+                                     "bob": [("open", "s", "alice", 0, False), ("recv_nb", "s"), ("recv_nb", "s"), ("recv_nb", "s")],
+                                     "bob2": [("use", "s", "bob"), ("recv_nb", "s"), ("recv_nb", "s"), ("recv_nb", "s")]}
+    # non-blocking broadcast receive: a broadcast that was completely sent before the poll started must be returned by it
+    S["broadcast-nonblocking"] = {"alice": [("bopen", "c", ["bob"]), ("bsend", "a1"), ("bsend", "a2")],
+                                  "bob": [("bopen", "c", ["alice"]), ("brecv",), ("pause", 3), ("brecv_nb",), ("brecv_nb",), ("brecv_nb",)]}
+    # three broadcast endpoints that list their remotes in cyclic order
+    S["broadcast-3-cyclic"] = {"alice": [("bopen", "c", ["bob", "charlie"]), ("bsend", "a1"), ("brecv",), ("brecv",)],
+                               "bob": [("bopen", "c", ["charlie", "alice"]), ("bsend", "b1"), ("brecv",), ("brecv",)],
+                               "charlie": [("bopen", "c", ["alice", "bob"]), ("bsend", "c1"), ("brecv",), ("brecv",)]}
+    # an endpoint gives up connecting (timeout 0, peer absent) and never comes back: the peer must not "connect" to its ghost
+    S["peer-gave-up"] = {"alice": [("open_t", "s", "bob", 0, 0.0)],
+                         "bob": [("vsleep", 1.0), ("open", "s", "alice", 0, False), ("send", "s", "b1")]}
     # messages of length zero are messages too
     S["empty-message"] = {"alice": [("open", "s", "bob", 0, False), ("send", "s", ""), ("send", "s", "a2")],
                           "bob": [("open", "s", "alice", 0, False), ("recv", "s"), ("recv", "s"), ("recv_nb", "s")]}
@@ -86,10 +102,12 @@ def scenarios():
 
 
 class Endpoint:
-    def __init__(self, name, script, s: vs.Scheduler, keep):
+    def __init__(self, name, script, s: vs.Scheduler, keep, shared=None):
         self.name, self.script, self.s, self.keep = name, script, s, keep
         self.socks = {}
         self.chan = None
+        self.shared = shared if shared is not None else {}     # (owner endpoint, socket name) -> socket object
+        self.alias = None      # a second thread of the same endpoint records its operations under the owner's name
 
     def body(self):
         from netqasm.sdk.classical_communication.message import StructuredMessage
@@ -99,9 +117,31 @@ class Endpoint:
         me = self.name
         for op in self.script:
             k = op[0]
+            if k == "use":
+                # a second thread of endpoint op[2] working on that endpoint's socket op[1]
+                _, sn, owner = op
+                while (owner, sn) not in self.shared:
+                    s.forced_yield()
+                self.socks[sn] = self.shared[(owner, sn)]
+                self.alias = owner
+                me = owner
+                continue
+            if k == "brecv_nb":
+                s.record(("call", me, "brecv_nb"))
+                try:
+                    frm, msg = self.chan.recv(block=False)
+                    s.record(("ret", me, "brecv_nb", frm, msg))
+                except BaseException as e:
+                    if isinstance(e, (vs.SchedBound, vs.SchedDeadlock)):
+                        raise
+                    s.record(("ret", me, "brecv_nb", None, f"!{type(e).__name__}"))
+                continue
             if k == "pause":
                 for _ in range(op[1]):
                     s.forced_yield()
+                continue
+            if k == "vsleep":
+                s.vsleep(op[1])       # the host does something else for a while (virtual time passes)
                 continue
             if k == "open":
                 _, sn, remote, sid, cb = op
@@ -112,6 +152,7 @@ class Endpoint:
                     cls = _callback_class(s, me, sn) if cb else ThreadSocket
                     sock = cls(me, remote, socket_id=sid, timeout=TIMEOUT, use_callbacks=cb) if not cb else cls(me, remote, socket_id=sid, timeout=TIMEOUT)
                     self.socks[sn] = sock
+                    self.shared[(me, sn)] = sock
                     self.keep.append(sock)
                     s.record(("ret", me, "open", sn, "ok"))
                 except BaseException as e:
@@ -261,8 +302,9 @@ def run_schedule(script, chooser, step_bound=6000):
     keep = []
     vs.install(s)
     try:
+        shared = {}
         for name, ops in script.items():
-            s.spawn(name, Endpoint(name, ops, s, keep).body)
+            s.spawn(name, Endpoint(name, ops, s, keep, shared).body)
         s.run()
     finally:
         vs._installed["sched"] = None
@@ -296,9 +338,29 @@ def judge(script, s: vs.Scheduler):
         if ev[0] == "ret" and ev[2] == "open_t" and ev[4] != "ok" and ev[5]:
             return (f"endpoint {ev[1]} connecting with a small timeout failed ({ev[4]}) although its peer had already opened its side "
                     f"and was waiting")
+    # an endpoint whose only connect attempt failed (it gave up and left) is not there: its peer's connect must not report success
+    gave_up = {ev[1] for ev in log if ev[0] == "ret" and ev[2] == "open_t" and ev[4] != "ok" and not ev[5]}
+    gave_up -= {ev[1] for ev in log if ev[0] == "ret" and ev[2] in ("open", "open_t") and ev[4] == "ok"}
+    for i, ev in enumerate(log):
+        if ev[0] == "ret" and ev[2] == "open" and ev[-1] == "ok":
+            call = next(e for e in reversed(log[:i]) if e[0] == "call" and e[1] == ev[1] and e[2] == "open" and e[3] == ev[3])
+            peer = call[4]
+            if peer in gave_up:
+                j = next(k for k, e in enumerate(log) if e[0] == "ret" and e[1] == peer and e[2] == "open_t")
+                ci = next(k for k, e in enumerate(log) if e is call)
+                if j < ci:
+                    return (f"endpoint {ev[1]} 'connected' to {peer}, whose only connect attempt had failed with a timeout before {ev[1]} "
+                            f"even started: it found the mark the failed attempt left behind")
     # rendezvous
+    cyclic = all(any(op[0] == "bopen" for op in ops) for ops in script.values()) and len(script) == 3 and \
+        [ops[0][2][0] for ops in script.values() if ops and ops[0][0] == "bopen"] == [list(script)[(i + 1) % 3] for i in range(3)]
     for ev in log:
         if ev[0] == "ret" and ev[2] in ("open", "bopen") and ev[-1] != "ok":
+            if ev[2] == "open" and any(e[0] == "call" and e[1] == ev[1] and e[2] == "open" and e[3] == ev[3] and e[4] in gave_up for e in log):
+                continue      # its peer gave up earlier: failing to connect is the right answer
+            if cyclic and ev[2] == "bopen" and ev[-1] == "TimeoutError":
+                return "KF:broadcast-cyclic|" + (f"broadcast endpoint {ev[1]} failed to connect ({ev[-1]}): the three endpoints list their remotes in "
+                                                   f"cyclic order and each constructor waits for its first remote before announcing itself to the second")
             return f"endpoint {ev[1]} failed to connect ({ev[-1]}) although its peer connects in this scenario"
     sends = {}       # (sender, receiver, sid) -> [ids accepted]
     recvs = {}       # (receiver, sender, sid) -> [ids received]
@@ -343,9 +405,15 @@ def judge(script, s: vs.Scheduler):
                         f"closed (a newer socket on the same key never receives it)")
             recvs.setdefault((me, remote, sid), []).append(_payload_of(msg) if not isinstance(msg, str) else msg)
     # exactly once, in order, per direction and socket id
+    multi_rcv = {op[2] for ops in script.values() for op in ops if op[0] == "use"}     # endpoints with two receiving threads
     for (rcv, snd, sid), got in recvs.items():
         sent = sends.get((snd, rcv, sid), [])
         clean = [g for g in got if not (isinstance(g, str) and g.startswith("!"))]
+        if rcv in multi_rcv:
+            # the two threads' returns are not ordered with respect to each other: exactly once, nothing foreign
+            if len(set(clean)) != len(clean) or not set(clean) <= set(sent):
+                return f"the two receiving threads of {rcv} got {clean} from {snd} on socket id {sid}, but {snd} sent {sent} (duplicate or foreign message)"
+            continue
         if clean != sent[:len(clean)]:
             return (f"{rcv} received {clean} from {snd} on socket id {sid}, but {snd} sent {sent} "
                     f"(duplicate, reordered, foreign or stale message)")
@@ -375,6 +443,27 @@ def judge(script, s: vs.Scheduler):
             if ev[3] is None:
                 return f"broadcast receive of {ev[1]} failed with {ev[4][1:]}"
             brecv.setdefault(ev[1], []).append((ev[3], ev[4]))
+        if ev[0] == "ret" and ev[2] == "brecv_nb" and ev[3] is not None:
+            brecv.setdefault(ev[1], []).append((ev[3], ev[4]))
+    # non-blocking broadcast receive: what was completely sent to me before the poll started and not yet received must be found
+    done_sends, got_cnt = {}, {}
+    pending_at_call = {}
+    for ev in log:
+        if ev[0] == "ret" and ev[2] == "bsend" and ev[-1] == "ok":
+            done_sends[ev[1]] = done_sends.get(ev[1], 0) + 1
+        elif ev[0] == "ret" and ev[2] in ("brecv", "brecv_nb") and ev[3] is not None:
+            got_cnt[(ev[1], ev[3])] = got_cnt.get((ev[1], ev[3]), 0) + 1
+        elif ev[0] == "call" and ev[2] == "brecv_nb":
+            pending_at_call[ev[1]] = [x for x in script if x != ev[1] and done_sends.get(x, 0) > got_cnt.get((ev[1], x), 0)]
+        if ev[0] == "ret" and ev[2] == "brecv_nb" and ev[3] is None:
+            if ev[4] != "!RuntimeError":
+                return f"non-blocking broadcast receive of {ev[1]} raised {ev[4][1:]} instead of reporting emptiness"
+            if pending_at_call.get(ev[1]):
+                return (f"non-blocking broadcast receive of {ev[1]} reported 'no message' although broadcasts from {pending_at_call[ev[1]]} "
+                        f"had been completely sent before the poll started and were not yet received")
+    for ev in []:
+        if False:
+            pass
     if bsent:
         names = list(script)
         for r in names:
@@ -388,6 +477,8 @@ def judge(script, s: vs.Scheduler):
                     return f"{r} received broadcasts {from_s} from {snd}, which sent {exp}"
             n_ops = sum(1 for op in script[r] if op[0] == "brecv")
             total = sum(len(bsent.get(x, [])) for x in names if x != r)
+            if any(op[0] == "brecv_nb" for op in script[r]):
+                continue      # polls may legitimately find nothing; the rule above judges them
             if len(got) != min(n_ops, total):
                 return f"{r} performed {n_ops} broadcast receives, {total} broadcasts were sent to it, got {got}"
     return None
@@ -499,6 +590,8 @@ def run_case(ctx, case):
         s = run_schedule(script, chooser)
         err = judge(script, s)
         if err:
+            if err.startswith("KF:"):
+                err = err.split("|", 1)[1]
             ctx.fail(case, f"scenario {case['scenario']}: {err}", detail={"log": [list(map(str, e)) for e in s.log]})
         return ctx.case(case, True)
 
@@ -518,9 +611,12 @@ def run_case(ctx, case):
         for site, n in s.yield_sites.items():
             ctx.count("site_" + site, n)
         if err:
+            key = None
+            if err.startswith("KF:broadcast-cyclic|"):
+                key, err = KF_CYCLE, err.split("|", 1)[1]
             ctx.fail({"kind": "replay", "scenario": case["scenario"], "choices": list(s.choices)},
                      f"scenario {case['scenario']} (schedule of {len(s.choices)} choices, {s.preemptions} preemptions): {err}",
-                     detail={"log": [list(map(str, e)) for e in s.log]})
+                     detail={"log": [list(map(str, e)) for e in s.log]}, key=key)
 
     if case["kind"] == "random":
         rng = random.Random(case["seed"])
